@@ -13,6 +13,7 @@ mod kframe;
 mod kxform;
 mod kalign;
 mod kline;
+mod kselect;
 
 pub fn f(v: &Value) -> f64 {
     match v {
@@ -54,6 +55,8 @@ fn main() {
     } else if let Some(v) = kseries::run(&kernel, &a) {
         v
     } else if let Some(v) = kcurve::run(&kernel, &a) {
+        v
+    } else if let Some(v) = kselect::run(&kernel, &a) {
         v
     } else if let Some(v) = kline::run(&kernel, &a) {
         v
